@@ -119,6 +119,8 @@ def find_seeds(case, ev):
             add(core.exc_finding(exc, {"cases": [c], "seeds": case["seeds"]}, "run/"))
             base.append(None)
             continue
+        # a run with the SAME options on other input in between must not matter either
+        guarded(worker_dir, dict(c, files=[["other.cfg", "password OtherSecret1\nusername u secret 5 $1$abcd$0123456789012345678901\n ip address 9.8.7.6 255.0.0.0\nhostname sea-zorgon\n"]]))
         r2, exc = guarded(worker_dir, c)
         if exc is None and r != r2:
             add(Finding("seeds/repeated-run-in-one-process-differs:%s" % _diff_kind(c, r, r2), "options %r: %s" % (c["opts"], _first_diff(r, r2)), {"cases": [c], "seeds": case["seeds"][:1]}))
